@@ -686,6 +686,11 @@ pub fn privates() -> Vec<Private> {
         Private { name: "lang1-icf-blues".into(), language_group: Some(1), blues: nums(&[-130, -121, 881, 890]), ..Default::default() },
         Private { name: "lang1-other-blues".into(), language_group: Some(1), blues: nums(&[-120, -110, 870, 880]), ..Default::default() },
         Private { name: "lang1-boundary-blues".into(), language_group: Some(1), blues: nums(&[-130, -120, 880, 890]), ..Default::default() },
+        // each conjunct of the em-box test (b0 < -120, t0 < -120, b1 > 880, t1 > 880) alone at its boundary
+        Private { name: "lang1-icf-c1".into(), language_group: Some(1), blues: nums(&[-120, -125, 881, 890]), ..Default::default() },
+        Private { name: "lang1-icf-c2".into(), language_group: Some(1), blues: nums(&[-130, -120, 881, 890]), ..Default::default() },
+        Private { name: "lang1-icf-c3".into(), language_group: Some(1), blues: nums(&[-130, -121, 880, 890]), ..Default::default() },
+        Private { name: "lang1-icf-c4".into(), language_group: Some(1), blues: nums(&[-130, -121, 881, 880]), ..Default::default() },
         Private { name: "forcebold-std-snap".into(), blues: std_blues.clone(), force_bold: true, std_hw: Some(60), std_vw: Some(80), stem_snap_h: vec![50, 60, 80], stem_snap_v: vec![40, 80], ..Default::default() },
         Private { name: "seven-blues".into(), blues: nums(&[-15, 0, 100, 110, 200, 210, 300, 310, 400, 410, 500, 510, 600, 610]), other_blues: nums(&[-300, -290, -250, -240, -200, -190, -150, -140, -100, -90]), ..Default::default() },
         Private { name: "negative-height-zone".into(), blues: nums(&[0, -15, 515, 500]), ..Default::default() },
